@@ -69,7 +69,10 @@ class Static(object):
         return t.get("name", t["id"])
 
     def auto(self, tid):
-        return bool(self.tasks[tid].get("auto", False)) or self.tasks[tid].get("sub") is not None
+        t = self.tasks[tid]
+        if t.get("sub") is not None:
+            return bool(t.get("auto", True))
+        return bool(t.get("auto", False))
 
     def nf(self, tid):
         return bool(self.tasks[tid].get("nf", False))
